@@ -50,6 +50,27 @@ let () =
         let c = n_of_string cap in
         let offs = List.map (fun h -> offset_from_hash (n_of_string h) c) hs in
         Printf.printf "offs=%s next=%s\n" (ns offs) (ns (List.map (fun o -> inc_and_wrap o c) offs))
+      | "strpred" :: lens ->
+        (* the four real predicates + how a pushed value is represented + the modelled round trip, per length *)
+        let sp = (match src_str_preds with Some x -> x | None -> failwith "src_str_preds = None") in
+        let b x = if x then "1" else "0" in
+        print_endline (String.concat " " (List.map (fun l ->
+            let n = n_of_string l in
+            b (holds sp.sv_inline n) ^ b (holds sp.sv_reference n) ^ b (holds sp.sp_inline n) ^ b (holds sp.sp_reference n) ^
+            (match push_view sp n with Safe RInline -> "i" | Safe RReference -> "r" | _ -> "x") ^
+            (match roundtrip sp n with Safe _ -> "s" | Wild -> "W" | AssertFail -> "A")) lens))
+      | "heapsizes" :: rows :: arrays ->
+        (* heapsizes <rows r,r,..|-> <array>..   array = valid bits ; selection ; lens   e.g. 101;0,1,2;5,20,13 *)
+        let sp = (match src_str_preds with Some x -> x | None -> failwith "src_str_preds = None") in
+        let ints s = if s = "-" || s = "" then [] else List.map int_of_string (split_on ',' s) in
+        let arr s = (match split_on ';' s with
+            | [v; sel; lens] -> { a_valid = List.init (String.length v) (fun i -> v.[i] = '1');
+                                  a_sel = List.map nat_of_int (ints sel); a_lens = List.map n_of_int (ints lens) }
+            | _ -> failwith "array") in
+        (match compute_heap_sizes sp (List.map arr arrays) (List.map nat_of_int (ints rows)) with
+         | None -> print_endline "panic"
+         | Some sz -> let (offs, total) = heap_block_of sz in
+           Printf.printf "sizes=%s offsets=%s total=%s\n" (ns sz) (ns offs) (string_of_n total))
       | [] -> ()
       | _ -> failwith ("bad line " ^ line)
     done
